@@ -58,7 +58,7 @@ func TestEnumLattice(t *testing.T) {
 			if !stats.Mine(idx) {
 				continue
 			}
-			c := Case{Kind: "cover", Class: class, Z: z, Target: enumTarget(z), G: gen.G{V: g}}
+			c := Case{Kind: "cover", Class: class, Z: z, Target: enumTarget(z), G: gen.G{V: g}, Layout: layouts[idx%5]}
 			stats.Eval("TestEnumLattice", 1)
 			var inf info
 			stats.TryT(t, "TestEnumLattice", c, func() error {
@@ -85,6 +85,8 @@ func TestEnumLattice(t *testing.T) {
 					continue
 				}
 				run(orb.Polygon{orb.Ring{pts[a], pts[b], pts[c], pts[a]}}, "enum/triangle", []uint32{3, 4, 5})
+				// the unclosed spelling (outside the quantifier: totality, bound, argument untouched)
+				run(orb.Polygon{orb.Ring{pts[a], pts[b], pts[c]}}, "enum/triangle+unclosed", []uint32{4})
 				if !stats.Thorough() {
 					continue
 				}
@@ -97,7 +99,7 @@ func TestEnumLattice(t *testing.T) {
 			}
 		}
 	}
-	stats.Subspace("segments (zoom 2-6), 2-segment lines (zoom 3,4), triangles (zoom 3-5) and, thorough only, quadrilaterals (zoom 3,4; the non-simple ones for totality) over the 5x5 half-tile lattice around lon 0 / lat 0 at zoom 3", size, true)
+	stats.Subspace("segments (zoom 2-6), 2-segment lines (zoom 3,4), triangles (zoom 3-5; unclosed spelling at zoom 4) and, thorough only, quadrilaterals (zoom 3,4; the non-simple ones for totality) over the 5x5 half-tile lattice around lon 0 / lat 0 at zoom 3", size, true)
 }
 
 // TestEnumMerge: every subset of the 16 tiles of zoom 2 (the whole world) with
